@@ -34,7 +34,8 @@ PRELUDE = ('let BIG = "0123456789" * 1000;\n'
            'let PK = pcap_open("$D/ok.pcap"); let SMALLPKT = pcap_read_next(PK); let BIGPKT = pcap_read_next(PK);\n'
            'let PEND = pcap_open("$D/ok.pcap"); pcap_read_all(PEND);\n'
            'let WOK = open("$D/wok.txt", "w"); write(WOK, "abc");\n'
-           'let WFULL = open("/dev/full", "w"); write(WFULL, "abc");\n')
+           'let WFULL = open("/dev/full", "w"); write(WFULL, "abc");\n'
+           'fn FLUSHOUT() { write(stdout, "p"); flush(stdout) }\n')
 
 
 def script(ops, d):
@@ -55,6 +56,8 @@ def run(rep, tier, seed):
     try:
         good_stdin = pcapfmt.pcap_file([pcapfmt.simple_tcp_frame()])
 
+        devfull = open("/dev/full", "w")
+
         def runcase(c):
             d = os.path.join(base, "r%d" % c["id"])
             os.makedirs(d)
@@ -65,7 +68,7 @@ def run(rep, tier, seed):
             src = script(c["ops"], d)
             try:
                 p = subprocess.run([core.P2SH, "-c", src], input=(b"garbage-not-pcap" * 4 if garbage else good_stdin),
-                                   stdout=subprocess.PIPE, stderr=subprocess.PIPE, timeout=180)
+                                   stdout=devfull, stderr=subprocess.PIPE, timeout=180)
                 c["err"] = p.stderr.decode("utf8", "replace")
                 c["how"] = "exit" if p.returncode == 0 else ("panic" if p.returncode == 101 else "rc=%d" % p.returncode)
             except subprocess.TimeoutExpired:
@@ -110,7 +113,7 @@ def run(rep, tier, seed):
                 rep.disagree(sig, {"script": c["src"], "stderr": c["err"][:600], "how": c["how"]})
         rep.cov["distinct_nontrivial"] = len(cases)
         rep.cov["fault_operations"] = sum(1 for c in cases for op in c["ops"] if op["fault"])
-        rep.cov["rule"] = ("TLC-enumerated programs (spec/GenFaults.tla) of one or two operations from the 44-entry operation x "
+        rep.cov["rule"] = ("TLC-enumerated programs (spec/GenFaults.tla) of one or two operations from the 48-entry operation x "
                            "target table (thorough: plus every 29th program of three); distinct = distinct programs; non-trivial = "
                            "the program performs at least one I/O operation (all)")
         rep.cov["exhaustive"] = tier == "quick"
